@@ -137,11 +137,22 @@ def one_case(sess, r, rng, ci, canon, spelled, uri, transport, repl, host, port,
     prior = None
     if ci % 3 == 1 and not api.startswith('async'):      # (an asynchronous service accepts one endpoint setting only)
         # the service pointed somewhere else first (another transport): only the LAST setting may decide where the request goes
-        prior = rng.choice(['ksi+tcp://earlier.example:4444', 'file:///tmp/earlier-endpoint.tlv', 'ksi+http://earlier.example:81/old', 'http://earlier.example/older'])
+        prior = rng.choice(['ksi+tcp://earlier.example:4444', 'file:///tmp/earlier-endpoint.tlv', 'ksi+http://earlier.example:81/old', 'http://earlier.example/older', 'LONGER', 'LONGER'])
+        prior_cred = ('earlier-user', 'earlier-key')
+        if prior == 'LONGER':
+            # the earlier setting is the SAME URI with every component (and both credentials) made longer: what is set now is a proper prefix of what is stored
+            if transport in ('http', 'tcp') and canon != 'file':
+                lhost = host + 'x' if not host.startswith('[') and not host[0].isdigit() else host
+                prior = compose(spelled, None, lhost, (port if port is not None else 80) if lhost != host or port is None else port * 10 + 1 if port * 10 + 1 < 65536 else port,
+                                (path or '') + '/more', (query + '&z=1') if query is not None else 'z=1', (frag + 'x') if frag is not None else 'f')
+                prior_cred = ((user if user != '-' else (embedded[0] if embedded else 'u')) + '-2', (key if key != '-' else (embedded[1] if embedded else 'k')) + '-2024')
+                r.count('earlier_setting_is_longer_variant')
+            else:
+                prior = 'ksi+http://earlier.example:81/old'
         replay = 'earlier-endpoint=%s ' % prior + replay
     if not is_async:
         if prior and not prior.startswith('file') or (prior and transport != 'file'):
-            c('set_%s 0 %s earlier-user earlier-key' % ('aggr' if api == 'aggr' else 'ext', prior))
+            c('set_%s 0 %s %s %s' % ('aggr' if api == 'aggr' else 'ext', prior, prior_cred[0], prior_cred[1]))
         q = c('set_%s 0 %s %s %s' % ('aggr' if api == 'aggr' else 'ext', uri, user, key))
         setrc = q.rc
         if setrc == 0 and ci % 4 == 2:
